@@ -345,6 +345,14 @@ struct Machine
       // arbitrary finite coefficients (the property quantifies over all coefficient contents)
       for (const char * v : {"P0", "P3", "V0", "V1"})
         for (int i = 0; i < R; ++i) mem[pos[v] + i] = static_cast<S>((std::rand() % 4001 - 2000) / 1024.0);
+      if constexpr (std::is_same_v<S, double>) {
+        // coefficients that make cast<float>() round: ties (to even, both directions), float-subnormal range,
+        // underflow to zero, large magnitude, negative zero
+        const double sp[8] = {1.0 + 0x1p-24, 1.0 + 0x3p-24, 0x1.8p-130, 1e-50, 3.0e38, -0.0, 1.0 - 0x1p-25, -(1.0 + 0x1p-23 + 0x1p-24)};
+        const char * at[4] = {"P0", "P3", "V0", "V1"};
+        for (int q = 0; q < 8; ++q)
+          if ((q % 2) < R) mem[pos[at[q / 2]] + (q % 2)] = static_cast<S>(sp[q]);
+      }
     } else {
       for (const char * v : {"P0", "P3", "V0", "V1"}) put(pos[v], rnd());
       if (mode == 1) put(pos["P0"], G::Identity());
